@@ -111,17 +111,28 @@ fn generate(rng: &mut Rng) -> ConnScenario {
         4 => StratRes::Index(1),
         _ => StratRes::First,
     };
-    let services = Services {
+    let mut services = Services {
         discovery: Script::always(Some(lat(rng)), disc),
         filter: Script::always(Some(lat(rng)), filt),
         strategy: Script::always(Some(lat(rng)), strat),
         localization: gen_loc(rng),
         ..Default::default()
     };
+    // a back-end whose first call fails although a second one would succeed: failing is failing
+    if rng.chance(1, 10) {
+        use crate::services::Call;
+        match rng.below(3) {
+            0 => services.discovery.calls = vec![Call { lat_ns: Some(lat(rng)), res: DiscRes::Error }],
+            1 => services.filter.calls = vec![Call { lat_ns: Some(lat(rng)), res: FiltRes::Error }],
+            _ => services.strategy.calls = vec![Call { lat_ns: Some(lat(rng)), res: StratRes::Error }],
+        }
+    }
     let intent = if rng.chance(1, 2) { 2 } else { 3 };
     let mut client = ClientSpec::base(rng, intent);
     client.locale = gen_locale(rng);
     client.info_delay_ns = *rng.pick(&[0u64, 0, ms(50), secs(20)]);
+    // most clients hang up as soon as they have been told where to go; some take their time or wait for the server
+    client.close_on_end_ns = *rng.pick(&[Some(0u64), Some(0), Some(0), Some(ms(500)), Some(secs(3)), Some(secs(20)), None]);
     let mut sc = ConnScenario {
         seed: rng.next_u64(),
         cfg: ConnCfg {
